@@ -15,6 +15,8 @@ import logging
 import os
 import shutil
 import tempfile
+import time
+from concurrent.futures import ThreadPoolExecutor
 
 from harness.common import VERIF, enc, run_driver
 
@@ -109,7 +111,7 @@ def gen_file(rng, path, long_len=0, allow_empty=True):
             "trail": rng.random() < 0.7}
 
 
-def gen_spec(rng, i, host, long_len=0):
+def gen_spec(rng, i, host, long_len=0, no_collide=False):
     """one spec of an archive; everything needed to rebuild it is in the returned dict"""
     t = rng.choice(["file", "file", "rawfile", "first", "glob", "glob", "foreach_collect", "cmd", "cmd",
                     "cmdargs", "foreach", "ccmd", "cfile", "ds", "ds", "dsmulti", "missingfile", "raise",
@@ -127,7 +129,7 @@ def gen_spec(rng, i, host, long_len=0):
         sp["save_as"] = gen_saveas(rng, form, "S%d" % i)
     elif t in ("glob", "foreach_collect"):
         n = rng.choice([1, 2, 3, 4])
-        same_base = rng.random() < 0.15          # two matched files with one base name
+        same_base = (not no_collide) and rng.random() < 0.15          # two matched files with one base name
         base = gen_word(rng, 4)
         files = []
         for j in range(n):
@@ -204,13 +206,45 @@ def cmd_output(rng, long_len=0):
     return rng.choice(["\n", "\n", "\r\n"]).join(lines) + rng.choice(["", "\n"])
 
 
-def gen_world(rng, wid, tier, long_len=0):
+MULTI = ("glob", "foreach_collect", "foreach", "ccmd", "cfile", "dsmulti")
+
+
+def n_elems(sp):
+    return len(sp.get("files") or sp.get("elems") or [])
+
+
+def gen_world(rng, wid, tier, long_len=0, big=None):
+    """`big` = callable giving the size of the next 'much larger first element' (budgeted per run)"""
     host = rng.random() < 0.6
     n = rng.choice([2, 3, 4, 5, 6])
     specs = [gen_spec(rng, i, host, long_len if i == 0 else 0) for i in range(n)]
     while long_len and specs[0]["t"] not in ("file", "first", "cmd", "ds"):
         specs[0] = gen_spec(rng, 0, host, long_len)
-    return {"id": wid, "host": host, "specs": specs, "seed": rng.getrandbits(32)}
+    # PARALLEL run strategy (insights.collect with run_strategy parallel): Hydration(..., pool=ThreadPoolExecutor(k)).
+    # Every third archive, and always when a multi-output spec has >= 3 elements.
+    pool = 0
+    if wid % 3 == 0 or any(sp["t"] in MULTI and n_elems(sp) >= 3 for sp in specs):
+        pool = rng.choice([1, 2, 3, 4])
+        for i, sp in enumerate(specs):
+            if sp["t"] not in MULTI:
+                continue
+            # concurrent writers to ONE destination have no defined winner: keep destinations distinct here
+            # (the collision finding is exercised by the serially collected archives)
+            while sp["t"] in ("glob", "foreach_collect") and len(set(f["path"].rsplit("/", 1)[-1] for f in sp["files"])) < len(sp["files"]):
+                sp = specs[i] = gen_spec(rng, i, host, 0, no_collide=True)
+            if sp["t"] not in MULTI or n_elems(sp) < 2 or rng.random() < 0.25:
+                continue
+            # make the FIRST element finish LAST: much larger than the rest / a command that answers late
+            if sp["t"] in ("glob", "foreach_collect"):
+                sp["files"][0]["lines"] = sp["files"][0]["lines"] + [gen_line(rng, big() if big else 8000)]
+            elif sp["t"] == "dsmulti":
+                e = sp["elems"][0]
+                e["lines"] = [l for l in e["lines"] if "\n" not in l and "\r" not in l] + [gen_line(rng, big() if big else 8000)]
+            else:
+                sp["elems"][0]["slow"] = True
+                if rng.random() < 0.3:
+                    sp["elems"][0]["out"] = gen_line(rng, 8000) + "\n"
+    return {"id": wid, "host": host, "specs": specs, "seed": rng.getrandbits(32), "pool": pool}
 
 
 # ----------------------------------------------------------------------------- implementation adapter
@@ -228,6 +262,8 @@ class World(object):
         self.outputs = {}       # argv tuple -> (rc, text) or exception
         self.calls = []
         self.ds_calls = []
+        self.slow = set()
+        self.pool = desc.get("pool", 0)
         self.build()
 
     def close(self):
@@ -247,6 +283,8 @@ class World(object):
             def check_output(self, cmd, timeout=None, keep_rc=False, env=None, signum=None):
                 key = " ".join(cmd[0])
                 world.calls.append(key)
+                if world.pool and key in world.slow:
+                    time.sleep(0.03)         # runs inside the pool job (commands load lazily, in the serializer)
                 o = world.outputs[key]
                 if o[0] == "fail":
                     raise CalledProcessError(1, key, o[1])
@@ -310,6 +348,8 @@ class World(object):
             args = [tuple(e["arg"]) if isinstance(e["arg"], list) else e["arg"] for e in sp["elems"]]
             for e, a in zip(sp["elems"], args):
                 self.outputs[self.shlex_key(sp["cmd"] % a)] = ("fail", "boom-" + sp["name"]) if e["fail"] else ("ok", 0, e["out"])
+                if e.get("slow"):
+                    self.slow.add(self.shlex_key(sp["cmd"] % a))
 
             @datasource(Ctx)
             def args_ds(broker):
@@ -321,6 +361,8 @@ class World(object):
             for e in sp["elems"]:
                 the_cmd = "/usr/bin/%s exec %s %s" % (e["engine"], e["cid"], sp["cmd"] % tuple(e["args"]))
                 self.outputs[self.shlex_key(the_cmd)] = ("fail", "boom-" + sp["name"]) if e["fail"] else ("ok", 0, e["out"])
+                if e.get("slow"):
+                    self.slow.add(self.shlex_key(the_cmd))
 
             @datasource(Ctx)
             def rows_ds(broker):
@@ -332,6 +374,8 @@ class World(object):
             for e in sp["elems"]:
                 the_cmd = "/usr/bin/%s exec %s cat %s" % (e["engine"], e["cid"], e["path"])
                 self.outputs[self.shlex_key(the_cmd)] = ("fail", "boom-" + sp["name"]) if e["fail"] else ("ok", 0, e["out"])
+                if e.get("slow"):
+                    self.slow.add(self.shlex_key(the_cmd))
 
             @datasource(Ctx)
             def rows_ds(broker):
@@ -378,7 +422,8 @@ class World(object):
         broker = dr.Broker()
         ctx = self.Ctx(root=self.src)
         broker[self.Ctx] = ctx
-        h = Hydration(self.out, ctx)
+        pool = ThreadPoolExecutor(max_workers=self.pool) if self.pool else None
+        h = Hydration(self.out, ctx, pool=pool)
         persister = h.make_persister(set(self.points))
         self.order = []
 
@@ -387,7 +432,11 @@ class World(object):
                 self.order.append(c)
             persister(c, b)
         broker.add_observer(recording)
-        dr.run(self.points, broker)
+        try:
+            dr.run(self.points, broker)
+        finally:
+            if pool:
+                pool.shutdown(wait=True)
         self.broker = broker
         with open(os.path.join(self.out, "insights_archive.txt"), "w"):
             pass
@@ -442,7 +491,7 @@ def show_lines(ls):
 
 def persisted_content(p):
     """content of a provider as it was when persisted: list of lines; raw -> [bytes as latin-1];
-    an unsplit command's str -> its characters (that is what "\\n".join iterates over)"""
+    an unsplit command's str -> [that string]"""
     try:
         c = p.content
     except Exception:
@@ -452,7 +501,7 @@ def persisted_content(p):
     if isinstance(c, bytes):
         return [c.decode("latin-1")]
     if isinstance(c, str):
-        return list(c)
+        return [c]          # an unsplit command: ONE string
     return list(c)
 
 
@@ -481,6 +530,15 @@ def observe_before(w):
     return obs
 
 
+def not_collected(desc, e):
+    """under a HostContext empty content is refused (raw files are copied without looking at the content)"""
+    if e["fail"]:
+        return True
+    if not desc["host"] or e["raw"]:
+        return False
+    return e["content"] == [] or (e["unsplit"] and e["content"] == [""])
+
+
 def elem_fail_flags(sp):
     t = sp["t"]
     if t in ("cmd", "rawcmd", "cmdargs"):
@@ -499,7 +557,8 @@ def proto_collect(w, obs):
             content = e["content"] if (e["content"] is not None and not e["fail"]) else []
             lines.append("\t".join(["elem", e["kind"], enc(e["rel"]), opt(e["save_as"]), opt(e["cmd"]),
                                     canon_args(e["args"]), opt(e["image"]), opt(e["engine"]), opt(e["cid"]),
-                                    "7" if e["fail"] else "-", str(len(content))] + [enc(l) for l in content]))
+                                    "7" if e["fail"] else "-", "1" if e["unsplit"] else "0", str(len(content))] +
+                                   [enc(l) for l in content]))
         spec_idx.append(len(lines))
         lines.append("spec\t%s\t%s\t%d" % (enc(o["name"]), o["mode"], o["recorded"]))
     return lines, spec_idx
@@ -525,6 +584,21 @@ def impl_doc_summary(path):
                                "!" if o.get("rc") is None else str(o["rc"]), opt(o.get("cmd")), canon_args(o.get("args")),
                                opt(o.get("image")), opt(o.get("engine")), opt(o.get("container_id"))]))
     return "doc|E%d|%s|%s" % (len(doc["errors"]), rs, ";".join(shown)), doc
+
+
+def archive_view(root, meta_path):
+    """[(document of the element, bytes of its data file)] in document order; [] when there is no document"""
+    summ, doc = impl_doc_summary(meta_path)
+    if doc is None or doc["results"] is None:
+        return [(summ, None)] if doc is not None else []
+    rs = doc["results"] if isinstance(doc["results"], list) else [doc["results"]]
+    out = []
+    for r in rs:
+        pth = os.path.join(root, "data", r["object"]["relative_path"].lstrip("/"))
+        data = open(pth, "rb").read() if os.path.isfile(pth) else None
+        out.append((json.dumps(r["object"], sort_keys=True), data))
+    out.append(("errors:%d" % len(doc["errors"]), None))
+    return out
 
 
 def loaded_summary(p):
@@ -650,11 +724,34 @@ def _run_world(w, desc, patterns, fail, count):
         count("spec:" + o["sp"]["t"])
         count("doc:" + impl[si].split("|")[0] + ("+errors" if docs[o["name"]] and docs[o["name"]]["errors"] else ""))
 
+    # ---- pooled collection must persist exactly what serial collection of the same specs persists
+    if desc.get("pool"):
+        count("collect:pooled k=%d" % desc["pool"])
+        serial = dict(desc)
+        serial["pool"] = 0
+        w2 = World(serial)
+        try:
+            w2.collect()
+            for o in obs:
+                sp = o["sp"]
+                a = archive_view(w.out, w.meta_path(o["point"]))
+                b = archive_view(w2.out, w2.meta_path(getattr(w2.Specs, sp["name"])))
+                if a != b:
+                    fail("pooled collection (k=%d) persisted something else than serial collection of the same spec %s: %s vs %s"
+                         % (desc["pool"], sp["t"], [x[0][:60] for x in a][:4], [x[0][:60] for x in b][:4]),
+                         _case(desc, spec=sp["name"]), None)
+                if sp["t"] in MULTI and len(a) >= 2:
+                    count("collect:pooled multi-output spec with >= 2 persisted elements")
+        finally:
+            w2.close()
+    else:
+        count("collect:serial")
+
     # ---- destinations, for classifying the known collision finding (predicate on the INPUT)
     dst_count = {}
     for o in obs:
         for e in o["elems"]:
-            if not e["fail"] and not (desc["host"] and not e["raw"] and e["content"] == []):
+            if not not_collected(desc, e):
                 loc = expected_location(e["kind"], e["rel"], e["save_as"])
                 dst_count[loc] = dst_count.get(loc, 0) + 1
     collided = set(k for k, v in dst_count.items() if v > 1)
@@ -688,7 +785,7 @@ def _run_world(w, desc, patterns, fail, count):
     # ---- oracle part 2: what was persisted is what is loaded
     for o in obs:
         sp, name = o["sp"], o["name"]
-        survivors = [e for e in o["elems"] if not e["fail"] and not (desc["host"] and not e["raw"] and e["content"] == [])]
+        survivors = [e for e in o["elems"] if not not_collected(desc, e)]
         v = broker.get(o["point"])
         loaded = [] if v is None else (v if isinstance(v, list) else [v])
         if len(loaded) != len(survivors):
@@ -714,8 +811,7 @@ def _run_world(w, desc, patterns, fail, count):
                 fail("no file at data/%s" % want_loc, where, None)
             # command, arguments
             if p.cmd != e["cmd"]:
-                fid = "container-file-cmd-dropped" if (e["kind"] == "containerFile" and p.cmd is None) else None
-                fail("command differs: persisted %r, loaded %r" % (e["cmd"], p.cmd), where, fid)
+                fail("command differs: persisted %r, loaded %r" % (e["cmd"], p.cmd), where, None)
             if canon_args(p.args) != canon_args(e["args"]):
                 fail("arguments differ: persisted %r, loaded %r" % (e["args"], p.args), where, None)
             # lines
@@ -729,11 +825,12 @@ def _run_world(w, desc, patterns, fail, count):
                     fail("raw bytes differ", where, fid)
                 count("lines:raw")
             elif e["unsplit"]:
-                # an unsplit command's content is ONE string
-                text = "".join(per)
-                if "\n".join(content) != text and content != text.splitlines():
-                    fail("unsplit command output %r loaded as %r" % (text[:40], content[:8]), where,
-                         fid or "unsplit-command-interleaved")
+                # an unsplit command's content is ONE string: its lines (line breaks "\n", "\r\n", "\r") must load,
+                # up to one trailing empty line = up to one final line break
+                text = per[0].replace("\r\n", "\n").replace("\r", "\n")
+                got_text = "\n".join(content)
+                if not (got_text == text or got_text + "\n" == text):
+                    fail("unsplit command output %r loaded as %r" % (per[0][:40], content[:8]), where, fid)
                 count("lines:unsplit")
             elif any("\n" in l or "\r" in l for l in per):
                 count("lines:outside-hypothesis(line break inside a line)")
@@ -993,7 +1090,7 @@ def stream_prune(chk, n):
     chk.compare("dr.run pruning", cases, impl, model)
 
 
-# ----------------------------------------------------------------------------- witnesses of the known findings
+# ----------------------------------------------------------------------------- witnesses of the known findings / regression cases of the repaired ones
 
 def witness_worlds():
     return json.load(open(os.path.join(VERIF, "corpus", "C11", "witnesses.json"), encoding="utf-8"))
@@ -1011,7 +1108,10 @@ def run(chk):
                 "command, command_with_args, foreach_execute, container command/file, datasource single/multi, failing "
                 "datasources and failing commands), every save_as form with and without leading slashes, contents from a "
                 "Unicode generator (empty file, only-newline file, empty lines anywhere, U+000B/000C/001C-001E/0085/2028/2029, "
-                "NUL, astral, one very long line per run), collected under a HostContext subclass or a plain context; then 1 intact "
+                "NUL, astral, one very long line per run), collected under a HostContext subclass or a plain context, serially or (every "
+                "third archive and every archive with a multi-output spec of >= 3 elements) through Hydration(pool=ThreadPoolExecutor(k)), "
+                "k in 1..4, with the first element of multi-output specs 200 KB / 8 KB larger or answering 30 ms late, and compared with a "
+                "serial collection of the same specs; then 1 intact "
                 "+ 3 corrupted hydrations per archive (delete, truncate, garbage, unknown name, directory, bad UTF-8, wrong "
                 "shapes, data file removed; sparse, dense and total patterns); non-trivial = the case's canonical key is new")
     chk.assumptions = ["json, the UTF-8 codec, the file system and cp are not modelled (a meta_data file is classified by the harness as "
@@ -1044,9 +1144,16 @@ def run(chk):
 
     # ---- generated archives
     long_at = rng.randrange(n_worlds)
+    budget = [4 if quick else 60]
+
+    def big():
+        if budget[0] > 0:
+            budget[0] -= 1
+            return 200000
+        return 8000
     for wi in range(n_worlds):
-        desc = gen_world(rng, wi, chk.tier, long_len=(100000 if quick else 400000) if wi == long_at else 0)
-        pats = gen_patterns(rng, len(desc["specs"]), 3)
+        desc = gen_world(rng, wi, chk.tier, long_len=(100000 if quick else 400000) if wi == long_at else 0, big=big)
+        pats = gen_patterns(rng, len(desc["specs"]), 3 if not desc["pool"] else 2)
         ls, im, kp = run_world(desc, pats, fail, chk.count)
         all_lines += ls; all_impl += im; all_keep += kp
         all_cases += [("world", wi, l.split("\t")[0]) for l in ls]
@@ -1091,7 +1198,11 @@ def replay(data):
         bad = (got or None) != (want or None)
     else:
         pats = [c["pattern"]] if "pattern" in c else []
-        ls, im, kp = run_world(c["desc"], pats, fail)
+        for attempt in range(6 if c["desc"].get("pool") else 1):     # thread timing: a pooled case may need a few tries
+            del seen[:]
+            ls, im, kp = run_world(c["desc"], pats, fail)
+            if seen:
+                break
         model = run_driver("C11", ls)
         for l, a, m, k in zip(ls, im, model, kp):
             if k and a != m:
